@@ -7,7 +7,7 @@
 VALIDATE = True
 SITES = ["no-exception", "verdict-equals-rfc1071", "wiring-accepted-packets-only"]
 MODELS = ["tlexport.packet.dpkt replaced by tlv/models/dpkt_model.py (spec parser, validated against real dpkt in the replay)",
-          "frames: Ethernet II, IPv4 IHL=5 no fragments / IPv6 without or with 8-byte extension headers, TCP data offset 5"]
+          "frames: Ethernet II, IPv4 without or with options, no fragments / IPv6 without or with 8-byte extension headers, TCP data offset 5"]
 ASSUMPTIONS = ["a UDP checksum field of 0x0000 ('not computed' in IPv4, illegal in IPv6) is neither right nor wrong: excluded",
                "a checksum is correct iff the RFC 1071 receiver sum over pseudo header and segment (field included) is 0xffff"]
 
@@ -29,6 +29,11 @@ def configs(tier, seed):
             for tr in ((4,) if tier == "quick" else (1, 4, 6)):
                 n = _lens(tier, proto)[1]
                 out.append({"name": "leaf-ipv%d-%s-seg%d-trailer%d" % (ipv, proto, n, tr), "harness": "leaf", "ipv": ipv, "proto": proto, "n": n, "trailer": tr})
+    # IPv4 with options (IHL > 5): the pseudo header's length is that of the segment, whatever the header length
+    for proto in ("tcp", "udp"):
+        for on in ((4,) if tier == "quick" else (4, 8, 40)):
+            n = _lens(tier, proto)[1]
+            out.append({"name": "leaf-ipv4-%s-seg%d-options%d" % (proto, n, on), "harness": "leaf", "ipv": 4, "proto": proto, "n": n, "ip_options": on})
     # IPv6 with an extension header between the fixed header and the segment (the pseudo header names the upper-layer protocol)
     for proto in ("tcp", "udp"):
         for ext in (("dstopts",) if tier == "quick" else ("dstopts", "hopopts", "routing", "dstopts+dstopts")):
@@ -45,7 +50,8 @@ def bounds(tier):
             "trailer": "4 (thorough: 1, 4, 6) arbitrary bytes after the IP datagram",
             "wiring": "TLS 1.2 and QUIC connection through main.run -c with a damaged copy of any one packet just before it",
             "ipv6 extension headers": "one destination-options header (thorough: hop-by-hop, routing, two headers) of 8 bytes",
-            "outside": "longer segments; IPv4 options; other IPv6 extension headers; more than one damaged packet per capture"}
+            "ipv4 options": "4 (thorough: 4, 8, 40) option bytes",
+            "outside": "longer segments; other IPv6 extension headers; more than one damaged packet per capture"}
 
 
 def _build(cfg, src, dst, seg, trailer=None):
@@ -61,8 +67,9 @@ def _build(cfg, src, dst, seg, trailer=None):
         for k, kind in enumerate(kinds):
             nxt = codes[kinds[k + 1]] if k + 1 < len(kinds) else proto
             ext += bytes([nxt, 0, 1, 4, 0, 0, 0, 0]) if kind != "routing" else bytes([nxt, 0, 0, 0, 0, 0, 0, 0])
+    opts = (b"\x01" * (cfg["ip_options"] - 1) + b"\x00") if cfg.get("ip_options") else b""          # NOP ... end of option list
     fr = frames.ethernet(b"\x02\x00\x00\x00\x00\x02", b"\x02\x00\x00\x00\x00\x01", ipv6,
-                         frames.ip_header(ipv6, src, dst, first, len(ext) + len(seg)) + ext + seg)
+                         frames.ip_header(ipv6, src, dst, first, len(ext) + len(seg), options=opts) + ext + seg)
     return fr + trailer if trailer is not None and len(trailer) else fr
 
 
